@@ -57,7 +57,10 @@ FIRST = {'C03-s1', 'C04-s1', 'C05-s1', 'C05-s2', 'C13-s1', 'C08-s2', 'C09-s1', '
          'C12-v2', 'C13-v1', 'C13-v2', 'C14-v2', 'C15-v1', 'C15-v2', 'C16-v1', 'C16-v2', 'C17-v1', 'C17-v2', 'C18-v1',
          'C18-v2', 'C19-v2', 'C20-v1',
          'C02-w2', 'C05-w1', 'C07-w2', 'C08-w1', 'C12-w1', 'C12-w2', 'C13-w1', 'C14-w1', 'C16-w1', 'C16-w2', 'C18-w2',
-         'C20-w1', 'C03-w2', 'C06-w2', 'C10-w1', 'C11-w1', 'C11-w2', 'C13-w2'}
+         'C20-w1', 'C03-w2', 'C06-w2', 'C10-w1', 'C11-w1', 'C11-w2', 'C13-w2',
+         'C01-x1', 'C02-x1', 'C03-x2', 'C04-x1', 'C04-x2', 'C06-x1', 'C07-x1', 'C07-x2', 'C08-x1', 'C08-x2', 'C10-x2',
+         'C11-x1', 'C11-x2', 'C12-x2', 'C13-x2', 'C14-x2', 'C16-x1', 'C16-x2', 'C17-x2', 'C19-x2', 'C20-x1',
+         'C06-x2', 'C09-x2'}
 n = c = 0
 for d in sorted(glob.glob(os.path.join(ROOT, 'seeded', '*'))):
     meta = json.load(open(os.path.join(d, 'meta.json')))
